@@ -38,13 +38,20 @@ class ViewSection(Micheline, prim='view', args_len=4):
         return cls
 
     @staticmethod
+    def has_lambda_type(type_expr: Type['Micheline']) -> bool:
+        return type_expr.prim == 'lambda' or any(ViewSection.has_lambda_type(arg) for arg in type_expr.args)
+
+    @staticmethod
     def check_code(code: Type['Micheline'], lambda_: bool) -> None:
         if code.prim == 'SELF':
             raise MichelsonRuntimeError('view', f'{code.prim} is not allowed in views')
         if code.prim in ('CREATE_CONTRACT', 'SET_DELEGATE', 'TRANSFER_TOKENS') and not lambda_:
             raise MichelsonRuntimeError('view', f'{code.prim} is not allowed in views')
 
-        lambda_ |= code.prim in ('LAMBDA', 'LAMBDA_REC', 'lambda')
+        lambda_ |= code.prim in ('LAMBDA', 'LAMBDA_REC')
+        # NOTE: a pushed value can hold instructions in lambda literals only
+        if code.prim == 'PUSH':
+            lambda_ |= ViewSection.has_lambda_type(code.args[0])
         for arg in getattr(code, 'args', ()):
             ViewSection.check_code(arg, lambda_)
 
